@@ -2,7 +2,7 @@ from common import KERNEL, CORR
 
 PROP = dict(
     level="proof",
-    generators=["C02", "C01"],
+    generators=["C02", "C06"],   # the TS / RTSP remuxer ops too: what HTTP-TS, HLS and RTSP consumers start with (parameter sets before key frames)
     harness_timeout=900,
     trusted_base=[
         KERNEL, CORR,
